@@ -427,7 +427,15 @@ class Sim:
       elif '/fakes/' in fn:
         kind = 'fake'
       if kind:
-        out.append(f'{kind}:{f.f_code.co_qualname}')
+        tag = ''
+        if kind == 'repo':
+          # Scenarios may tag objects (obj._verif_tag = 'outer') so that a
+          # signature can tell which instance a thread is parked in.
+          slf = f.f_locals.get('self')
+          t = getattr(slf, '_verif_tag', None) if slf is not None else None
+          if isinstance(t, str):
+            tag = f'[{t}]'
+        out.append(f'{kind}:{f.f_code.co_qualname}{tag}')
         if len(out) >= limit:
           break
       f = f.f_back
